@@ -17,6 +17,9 @@ TABLE = {
     RES + '::and_then': ('R', 'Ok', 'flat'),             # Ok(v) -> f(v) ; Err(e) -> Err(e)
     RES + '::or_else': ('R', 'Err', 'flat'),
     RES + '::unwrap_or_else': ('R', 'Err', 'unwrap'),    # Ok(v) -> v ; Err(e) -> f(e)
+    RES + '::inspect': ('R', 'Ok', 'inspect'),           # Ok(v) -> { f(&v); Ok(v) } ; Err(e) -> Err(e)
+    RES + '::inspect_err': ('R', 'Err', 'inspect'),      # Err(e) -> { f(&e); Err(e) } ; Ok(v) -> Ok(v)
+    OPT + '::inspect': ('O', 'Some', 'inspect'),
     OPT + '::map': ('O', 'Some', 'wrap_same'),
     OPT + '::and_then': ('O', 'Some', 'flat'),
     OPT + '::or_else': ('O', 'None', 'flat0'),           # Some(v) -> Some(v) ; None -> f()
@@ -312,6 +315,22 @@ def desugar(crate, body):
         if how == 'wrap_same':
             b_done = finish([set_dest(_agg(variant, [_mv(r)]))])
             b_f = call_f(t['args'][1], [_payload(subj, variant)], r, b_done)
+            p = new_local()
+            if other == 'None':
+                b_o = finish([set_dest(_agg('None', []))])
+            else:
+                b_o = finish([_assign(p, {'k': 'use', 'op': _payload(subj, other)}, at), set_dest(_agg(other, [_mv(p)]))])
+        elif how == 'inspect':
+            # f(&payload); the subject itself is the result
+            # (the result is rebuilt per arm - Ok(v) / Err(e) with the payload moved over - so that which variant it is
+            # stays visible to a following combinator on the same value)
+            p1 = new_local()
+            b_done = finish([_assign(p1, {'k': 'use', 'op': _payload(subj, variant)}, at), set_dest(_agg(variant, [_mv(p1)]))])
+            q = new_local()
+            ref_stmt = _assign(q, {'k': 'ref', 'bk': 'shared', 'place': {'l': subj, 'p': [['downcast', variant, VIDX[variant]], ['field', 0, '0', '?']]}}, at)
+            b_call = call_f(t['args'][1], [_mv(q)], r, b_done)
+            blocks[b_call]['stmts'].insert(0, ref_stmt)
+            b_f = b_call
             p = new_local()
             if other == 'None':
                 b_o = finish([set_dest(_agg('None', []))])
